@@ -87,6 +87,7 @@ func (r *Decoder) producePrefixedName(r0 cursorio.DecodedRune) (*tokenPrefixedNa
 	var uncommitted cursorio.DecodedRuneList
 
 	var decodedLocal []rune
+	var decodedLocalEscaped bool // last rune of decodedLocal was written as PN_LOCAL_ESC
 
 	namespaceToken, err := r.producePNAME_NS(r0)
 	if err != nil {
@@ -108,6 +109,7 @@ func (r *Decoder) producePrefixedName(r0 cursorio.DecodedRune) (*tokenPrefixedNa
 			r0.Rune == ':',
 			'0' <= r0.Rune && r0.Rune <= '9':
 			decodedLocal = append(decodedLocal, r0.Rune)
+			decodedLocalEscaped = false
 			uncommitted = append(uncommitted, r0)
 		case r0.Rune == '%':
 			r1, err := r.buf.NextRune()
@@ -125,6 +127,7 @@ func (r *Decoder) producePrefixedName(r0 cursorio.DecodedRune) (*tokenPrefixedNa
 			}
 
 			decodedLocal = append(decodedLocal, r0.Rune, r1.Rune, r2.Rune)
+			decodedLocalEscaped = false
 			uncommitted = append(uncommitted, r0, r1, r2)
 		case r0.Rune == '\\':
 			r1, err := r.buf.NextRune()
@@ -135,6 +138,7 @@ func (r *Decoder) producePrefixedName(r0 cursorio.DecodedRune) (*tokenPrefixedNa
 			switch r1.Rune {
 			case '_', '~', '.', '-', '!', '$', '&', '\'', '(', ')', '*', '+', ',', ';', '=', '/', '?', '#', '@', '%':
 				decodedLocal = append(decodedLocal, r1.Rune)
+				decodedLocalEscaped = true
 				uncommitted = append(uncommitted, r0, r1)
 			default:
 				return nil, grammar.R_PrefixedName.Err(grammar.R_PN_LOCAL.Err(grammar.R_PN_LOCAL_ESC.Err(r.newOffsetError(cursorioutil.UnexpectedRuneError{Rune: r1.Rune}, append(uncommitted[:], r0).AsDecodedRunes(), r1.AsDecodedRunes()))))
@@ -161,6 +165,7 @@ func (r *Decoder) producePrefixedName(r0 cursorio.DecodedRune) (*tokenPrefixedNa
 			r0.Rune == '.',
 			r0.Rune == ':':
 			decodedLocal = append(decodedLocal, r0.Rune)
+			decodedLocalEscaped = false
 			uncommitted = append(uncommitted, r0)
 		case r0.Rune == '%':
 			r1, err := r.buf.NextRune()
@@ -178,6 +183,7 @@ func (r *Decoder) producePrefixedName(r0 cursorio.DecodedRune) (*tokenPrefixedNa
 			}
 
 			decodedLocal = append(decodedLocal, r0.Rune, r1.Rune, r2.Rune)
+			decodedLocalEscaped = false
 			uncommitted = append(uncommitted, r0, r1, r2)
 		case r0.Rune == '\\':
 			r1, err := r.buf.NextRune()
@@ -188,6 +194,7 @@ func (r *Decoder) producePrefixedName(r0 cursorio.DecodedRune) (*tokenPrefixedNa
 			switch r1.Rune {
 			case '_', '~', '.', '-', '!', '$', '&', '\'', '(', ')', '*', '+', ',', ';', '=', '/', '?', '#', '@', '%':
 				decodedLocal = append(decodedLocal, r1.Rune)
+				decodedLocalEscaped = true
 				uncommitted = append(uncommitted, r0, r1)
 			default:
 				return nil, grammar.R_PrefixedName.Err(grammar.R_PN_LOCAL.Err(grammar.R_PN_LOCAL_ESC.Err(r.newOffsetError(cursorioutil.UnexpectedRuneError{Rune: r1.Rune}, append(uncommitted[:], r0).AsDecodedRunes(), r1.AsDecodedRunes()))))
@@ -201,16 +208,11 @@ func (r *Decoder) producePrefixedName(r0 cursorio.DecodedRune) (*tokenPrefixedNa
 
 PN_LOCAL_DONE:
 
-	if decodedLocal[len(decodedLocal)-1] == '.' {
+	// a trailing '.' belongs to the local name only when it was written as PN_LOCAL_ESC
+	if !decodedLocalEscaped && decodedLocal[len(decodedLocal)-1] == '.' {
 		r.buf.BacktrackRunes(uncommitted[len(uncommitted)-1])
 		uncommitted = uncommitted[0 : len(uncommitted)-1]
 		decodedLocal = decodedLocal[0 : len(decodedLocal)-1]
-
-		if decodedLocal[len(decodedLocal)-1] == '\\' {
-			r.buf.BacktrackRunes(uncommitted[len(uncommitted)-1])
-			uncommitted = uncommitted[0 : len(uncommitted)-1]
-			decodedLocal = decodedLocal[0 : len(decodedLocal)-1]
-		}
 	}
 
 DONE:
